@@ -34,7 +34,8 @@ def bi_read(df, asof = None, what = -1):
         an item we can read bitemporally    
         
     asof: datetime
-        read the values as if date is asof
+        read the values as if date is asof. 
+        Any spelling of a date that Bi accepts for the stamp can be used: datetime, np.datetime64, datetime.date, '2021-01-02', 20210102...
         
     what: int, str or function
         how to select a value from multiple values associated with same index
@@ -54,10 +55,10 @@ def bi_read(df, asof = None, what = -1):
     """
     if not is_bi(df) or what == 'all':
         return df
-    if is_date(asof):
-        df = df[df[_updated]<=asof]
     if is_bi(asof):
         df = df[df[_updated] <= asof.reindex(df.index)[_updated]]
+    elif asof is not None:
+        df = df[df[_updated] <= dt(asof)]
     index_name = df.index.name
     if len(df):        
         if index_name is None:
